@@ -20,6 +20,10 @@ def _cases(tier):
   yield from universe.multi_cases(
       eg.TTOPO + ['CONV_2D', 'EMBEDDING_LOOKUP', 'SOFTMAX', 'MUL']
       if tier == 'quick' else eg.T21 + eg.U)
+  if tier == 'quick':
+    for types in (['FULLY_CONNECTED', 'ADD', 'TANH'],
+                  ['FULLY_CONNECTED', 'CONCATENATION', 'ABS']):
+      yield from universe.graph_cases([(4, types, 'first', 'none')])
   yield from universe.graph_cases(spec(tier), sigrev=True)
 
 
